@@ -12,7 +12,9 @@ Extracted (fail closed on anything else):
     (time-domain branch / single-readout branch) — which quantity is passed as rows / cols / readout_times:
     the size of the target data read from file (`len(targets["y"])`, `targets.sizes["y"]`, `targets.shape[i]`,
     a name unpacked from `targets_4d.shape` ...), the size of the simulated frame (`processor.detector.geometry.row`,
-    `len(readout.times)` ...), or nothing -> Model.Fitness.calls.
+    `len(readout.times)` ...), or nothing -> Model.Fitness.calls;
+  * same file: in which branch(es) `self._configure_weights(weights=weights, weights_from_file=weights_from_file)` is
+    called, and the `shape=` of the `np.full(...)` that expands a scalar weight in `fitness` -> Model.Fitness.wconf.
 """
 from __future__ import annotations
 
@@ -422,7 +424,68 @@ def _call_sites(tree) -> tuple[str, str]:
     return out["single"], out["multi"]
 
 
-def render(out_guards, c2, c3, single=None, multi=None, target_first=True) -> str:
+# ------------------------------------------------------------------------------------------ weights
+
+def _is_cfg_weights(st) -> bool:
+    return _kw_call(st, "self._configure_weights", {"weights": "weights", "weights_from_file": "weights_from_file"})
+
+
+def _weights_conf(tree) -> str:
+    """where `self._configure_weights(weights=weights, weights_from_file=weights_from_file)` is called in __init__
+    (single-readout branch / time-domain branch / after both), and the shape a scalar weight is expanded to in
+    `fitness` (`np.full(shape=..., fill_value=self.weighting[processor_id])`)"""
+    fn = find_func(tree, "__init__", cls="ModelFittingDataTree")
+    calls = [n for n in ast.walk(fn) if isinstance(n, ast.Call) and ast.unparse(n.func) == "self._configure_weights"]
+    branch_ifs = [n for n in ast.walk(fn) if isinstance(n, ast.If)
+                  and ast.unparse(n.test) in ("self.readout.time_domain_simulation", "readout.time_domain_simulation")]
+    if len(branch_ifs) != 1:
+        fail(fn, "expected one `if self.readout.time_domain_simulation` in ModelFittingDataTree.__init__")
+    node_if = branch_ifs[0]
+    single = multi = False
+    seen = 0
+    for st in node_if.body:
+        if _is_cfg_weights(st):
+            multi, seen = True, seen + 1
+    for st in node_if.orelse:
+        if _is_cfg_weights(st):
+            single, seen = True, seen + 1
+    # the block that contains the if: a call there (before or after the if) serves both kinds of target
+    for parent in ast.walk(fn):
+        for field in ("body", "orelse"):
+            blk = getattr(parent, field, None)
+            if isinstance(blk, list) and node_if in blk:
+                for st in blk:
+                    if _is_cfg_weights(st):
+                        single = multi = True
+                        seen += 1
+    if seen != len(calls):
+        fail(fn, "a call of self._configure_weights is conditional, nested or passes other arguments")
+    ff = find_func(tree, "fitness", cls="ModelFittingDataTree")
+    fulls = [n for n in ast.walk(ff) if isinstance(n, ast.Call) and ast.unparse(n.func) in ("np.full", "numpy.full")]
+    if len(fulls) != 1:
+        fail(ff, f"expected one np.full(...) expanding the scalar weight in fitness, found {len(fulls)}")
+    kw = {k.arg: k.value for k in fulls[0].keywords}
+    args = list(fulls[0].args)
+    shape = kw.get("shape", args[0] if args else None)
+    fill = kw.get("fill_value", args[1] if len(args) > 1 else None)
+    if shape is None or fill is None or ast.unparse(fill) != "self.weighting[processor_id]":
+        fail(fulls[0], "np.full(shape=..., fill_value=self.weighting[processor_id]) expected")
+    src = ast.unparse(shape)
+    geo = ("processor.detector.geometry.row", "processor.detector.geometry.col")
+    if src in ("target_data.shape", "np.shape(target_data)", "tuple(target_data.shape)"):
+        sh = "ShTarget"
+    elif isinstance(shape, ast.Tuple) and tuple(ast.unparse(e) for e in shape.elts) == geo:
+        sh = "ShDetector"
+    else:
+        fail(shape, "unsupported shape of the scalar weighting array")
+    b = {True: "true", False: "false"}
+    return f"{{| wc_single := {b[single]}; wc_multi := {b[multi]}; wc_shape := {sh} |}}"
+
+
+WCONF = "{| wc_single := true; wc_multi := true; wc_shape := ShTarget |}"
+
+
+def render(out_guards, c2, c3, single=None, multi=None, target_first=True, wconf=None) -> str:
     def lst(gs):
         return "[ " + ";\n      ".join(gs) + " ]"
     return (HEADER + "From Coq Require Import ZArith List.\nFrom PyxelV Require Import Model.Fitness.\n"
@@ -433,7 +496,8 @@ def render(out_guards, c2, c3, single=None, multi=None, target_first=True) -> st
             f"     check3d :=\n      {lst(c3)};\n"
             f"     target_first := {'true' if target_first else 'false'} |}}.\n"
             "Definition src_calls : calls :=\n"
-            f"  {{| call_single := {single or CALL_SINGLE};\n     call_multi := {multi or CALL_MULTI} |}}.\n")
+            f"  {{| call_single := {single or CALL_SINGLE};\n     call_multi := {multi or CALL_MULTI} |}}.\n"
+            f"Definition src_weights : wconf :=\n  {wconf or WCONF}.\n")
 
 
 CALL_SINGLE = "{| cs_rows := (QTgt DRow); cs_cols := (QTgt DCol); cs_times := QAbsent |}"
@@ -460,8 +524,9 @@ def translate(repo: Path) -> str:
         fail(f3, "FitRange3D.check signature")
     c2 = _guards(f2, {"self": "Tgt"}, allow_pre=False, helpers=helpers)
     c3 = _guards(f3, {"self": "Tgt"}, allow_pre=False, helpers=helpers)
-    single, multi = _call_sites(parse(repo, REL_FIT))
-    return render(og, c2, c3, single, multi, target_first)
+    fit_tree = parse(repo, REL_FIT)
+    single, multi = _call_sites(fit_tree)
+    return render(og, c2, c3, single, multi, target_first, _weights_conf(fit_tree))
 
 
 def _tgt_block(d, b):
